@@ -9,17 +9,77 @@ import (
 	"verif/simrt"
 )
 
-type (
-	Bool    = atomic.Bool
-	Int32   = atomic.Int32
-	Int64   = atomic.Int64
-	Uint32  = atomic.Uint32
-	Uint64  = atomic.Uint64
-	Uintptr = atomic.Uintptr
-	Value   = atomic.Value
-)
+// Typed atomics: wrappers (not aliases) so that every method is preceded by a
+// scheduling point as well.  The zero value is ready to use, as in sync/atomic.
 
-type Pointer[T any] = atomic.Pointer[T]
+type Bool struct{ v atomic.Bool }
+
+func (x *Bool) Load() bool                        { y(); return x.v.Load() }
+func (x *Bool) Store(val bool)                    { y(); x.v.Store(val) }
+func (x *Bool) Swap(new bool) bool                { y(); return x.v.Swap(new) }
+func (x *Bool) CompareAndSwap(old, new bool) bool { y(); return x.v.CompareAndSwap(old, new) }
+
+type Int32 struct{ v atomic.Int32 }
+
+func (x *Int32) Load() int32                        { y(); return x.v.Load() }
+func (x *Int32) Store(val int32)                    { y(); x.v.Store(val) }
+func (x *Int32) Swap(new int32) int32               { y(); return x.v.Swap(new) }
+func (x *Int32) CompareAndSwap(old, new int32) bool { y(); return x.v.CompareAndSwap(old, new) }
+func (x *Int32) Add(d int32) int32                  { y(); return x.v.Add(d) }
+func (x *Int32) And(m int32) int32                  { y(); return x.v.And(m) }
+func (x *Int32) Or(m int32) int32                   { y(); return x.v.Or(m) }
+
+type Int64 struct{ v atomic.Int64 }
+
+func (x *Int64) Load() int64                        { y(); return x.v.Load() }
+func (x *Int64) Store(val int64)                    { y(); x.v.Store(val) }
+func (x *Int64) Swap(new int64) int64               { y(); return x.v.Swap(new) }
+func (x *Int64) CompareAndSwap(old, new int64) bool { y(); return x.v.CompareAndSwap(old, new) }
+func (x *Int64) Add(d int64) int64                  { y(); return x.v.Add(d) }
+func (x *Int64) And(m int64) int64                  { y(); return x.v.And(m) }
+func (x *Int64) Or(m int64) int64                   { y(); return x.v.Or(m) }
+
+type Uint32 struct{ v atomic.Uint32 }
+
+func (x *Uint32) Load() uint32                        { y(); return x.v.Load() }
+func (x *Uint32) Store(val uint32)                    { y(); x.v.Store(val) }
+func (x *Uint32) Swap(new uint32) uint32              { y(); return x.v.Swap(new) }
+func (x *Uint32) CompareAndSwap(old, new uint32) bool { y(); return x.v.CompareAndSwap(old, new) }
+func (x *Uint32) Add(d uint32) uint32                 { y(); return x.v.Add(d) }
+func (x *Uint32) And(m uint32) uint32                 { y(); return x.v.And(m) }
+func (x *Uint32) Or(m uint32) uint32                  { y(); return x.v.Or(m) }
+
+type Uint64 struct{ v atomic.Uint64 }
+
+func (x *Uint64) Load() uint64                        { y(); return x.v.Load() }
+func (x *Uint64) Store(val uint64)                    { y(); x.v.Store(val) }
+func (x *Uint64) Swap(new uint64) uint64              { y(); return x.v.Swap(new) }
+func (x *Uint64) CompareAndSwap(old, new uint64) bool { y(); return x.v.CompareAndSwap(old, new) }
+func (x *Uint64) Add(d uint64) uint64                 { y(); return x.v.Add(d) }
+func (x *Uint64) And(m uint64) uint64                 { y(); return x.v.And(m) }
+func (x *Uint64) Or(m uint64) uint64                  { y(); return x.v.Or(m) }
+
+type Uintptr struct{ v atomic.Uintptr }
+
+func (x *Uintptr) Load() uintptr                        { y(); return x.v.Load() }
+func (x *Uintptr) Store(val uintptr)                    { y(); x.v.Store(val) }
+func (x *Uintptr) Swap(new uintptr) uintptr             { y(); return x.v.Swap(new) }
+func (x *Uintptr) CompareAndSwap(old, new uintptr) bool { y(); return x.v.CompareAndSwap(old, new) }
+func (x *Uintptr) Add(d uintptr) uintptr                { y(); return x.v.Add(d) }
+
+type Value struct{ v atomic.Value }
+
+func (x *Value) Load() any                        { y(); return x.v.Load() }
+func (x *Value) Store(val any)                    { y(); x.v.Store(val) }
+func (x *Value) Swap(new any) any                 { y(); return x.v.Swap(new) }
+func (x *Value) CompareAndSwap(old, new any) bool { y(); return x.v.CompareAndSwap(old, new) }
+
+type Pointer[T any] struct{ v atomic.Pointer[T] }
+
+func (x *Pointer[T]) Load() *T                        { y(); return x.v.Load() }
+func (x *Pointer[T]) Store(val *T)                    { y(); x.v.Store(val) }
+func (x *Pointer[T]) Swap(new *T) *T                  { y(); return x.v.Swap(new) }
+func (x *Pointer[T]) CompareAndSwap(old, new *T) bool { y(); return x.v.CompareAndSwap(old, new) }
 
 func y() { simrt.Yield("atomic") }
 
